@@ -21,6 +21,9 @@ func (f *frame) call(ins ssa.Instruction, c *ssa.CallCommon) Val {
 		for _, a := range c.Args {
 			args = append(args, f.value(a))
 		}
+		if rt, ok := recv.(Term); ok && rt.T.K == KIface {
+			u.oblige(f.key, "safe.nil", "", f.curReach, Term{"(not (= (i-tag " + rt.S + ") 0))", sBool}, f.pos(ins)+" method call on nil interface", "")
+		}
 		if isErrorType(it) && c.Method.Name() == "Error" {
 			u.note("error.Error() returns an opaque string")
 			return u.declare("errstr", sStr)
@@ -275,6 +278,9 @@ func (f *frame) contractCallEnv(ct *Contract, key string, fn *ssa.Function, extr
 		if t, ok := r.(Term); ok {
 			u.assumeLive(f.cur, t)
 		}
+	}
+	if key == "iface:io.Reader.Read" && len(res) == 2 {
+		u.sched = append(u.sched, [2]string{res[0].(Term).S, res[1].(Term).S})
 	}
 	post := &SpecEnv{u: u, vars: vars, st: f.cur, old: oldSt, pkg: pkg, bound: map[string]Term{}, ctx: "call " + key}
 	for _, e := range ct.Ensures {
